@@ -260,7 +260,7 @@ func (c Cfg) optionClass() string {
 	if c.Iter != nil {
 		it = fmt.Sprintf("/iter%d-res%v", len(c.Iter), c.Reserved > 0)
 	}
-	return fmt.Sprintf("%s/%s/%s/%s/mod1=%s,k%d,deg%d,dbl%d,inv%d/c2s%s/s2c%s%s", c.Base, c.Res, sec, eph, m, c.K, c.Mod1Deg, c.DblAngle, c.InvDeg, shape(c.C2S), shape(c.S2C), it)
+	return fmt.Sprintf("%s/%s/%s/%s/mod1=%s,k%d,deg%d,dbl%d,inv%d,es%d/c2s%s/s2c%s%s", c.Base, c.Res, sec, eph, m, c.K, c.Mod1Deg, c.DblAngle, c.InvDeg, c.EvalScale, shape(c.C2S), shape(c.S2C), it)
 }
 
 func shape(f [][]int) string {
@@ -336,6 +336,7 @@ func genCfg(t *rapid.T, o genOpts) Cfg {
 	}
 
 	// encapsulation and secret weights
+	denseNoEph := false
 	dense := c.Base[0] == 'D' || (c.Base == "T45" && draw(t, "t45dense", 2) == 0)
 	if draw(t, "ephOn", 3) != 0 {
 		c.Eph = []int{32, 32, 16, 8, 1}[draw(t, "ephW", 5)]
@@ -352,6 +353,11 @@ func genCfg(t *rapid.T, o genOpts) Cfg {
 		c.Eph = 0
 		w := []int{32, 16, 8}[draw(t, "mainW", 3)]
 		c.H1, c.H2 = minInt(w, n1/2), minInt(w, n2/2)
+		// the "original" bootstrapping: a DENSE main secret (H = N/2) goes through ModUp itself, which needs a wide interval
+		denseNoEph = c.LogN >= 7 && draw(t, "denseNoEph", 5) == 0
+		if denseNoEph {
+			c.H1, c.H2 = n1/2, n2/2
+		}
 	}
 
 	// the repository's small-ring message-ratio correction (evaluator_test.go)
@@ -397,6 +403,28 @@ func genCfg(t *rapid.T, o genOpts) Cfg {
 		if c.DblAngle == 2 {
 			c.Mod1Deg = 63
 		}
+	}
+	if denseNoEph {
+		// K at the 9.6 standard deviations of the shipped sets for the secret that ModUp sees, CosDiscrete (needs degree
+		// >= 2(K-1)) with the default three double angles
+		hw := c.H2
+		if c.Res == "eq" {
+			hw = c.H1
+		}
+		c.K = kFor(hw)
+		c.Mod1, c.DblAngle, c.Mod1Deg = "cosd", 3, 2*c.K+6
+	}
+	// EvalMod scale different from the literal's: above Q0 (ModUp multiplies by round(scale/Q0) >= 2) or below Q0 (the
+	// division moves into CoeffsToSlots)
+	if draw(t, "evalScaleKind", 6) == 0 {
+		own, _ := b.btp.GetEvalMod1LogScale()
+		var cand []int
+		for _, v := range []int{60, 55, 50} {
+			if v != own {
+				cand = append(cand, v)
+			}
+		}
+		c.EvalScale = cand[draw(t, "evalScale", len(cand))]
 	}
 	// arcsine correction: only added (removing it from a literal built around it - message ratio 2^2 - is another set)
 	if id, _ := b.btp.GetMod1InvDegree(); id == 0 && draw(t, "invKind", 4) == 0 {
